@@ -48,13 +48,15 @@ func checkC09(r *harness.Run) harness.Coverage {
 	numArrays := arraysOver(univ.Js(`-1`, `1`, `2`, `2.5`), maxLen)
 	strArrays := arraysOver(univ.Js(`""`, `"a"`, `"b"`, `"ab"`), maxLen)
 	uniArrays := arraysOver(univ.Js(`"é"`, `"z"`, `"日"`, `"😀"`, `"e"`), 2)
+	// strings that share a multi-byte prefix and differ after it (byte offset vs code-point index)
+	uniArrays = append(uniArrays, arraysOver(univ.Js(`"éb"`, `"éa"`, `"éc"`, `"é"`, `"😀b"`, `"😀a"`), 3)...)
 	anys := univ.Js(`null`, `true`, `false`, `0`, `1`, `-0.5`, `"a"`, `""`, `"é\"\\"`, `[]`, `[1]`, `[[1]]`, `[null]`, `{}`, `{"a":1}`, `{"b":[1,{"c":null}]}`, `1e21`, `1e-7`, `[1.5,"x"]`, `["lit \\u003c <", {"\\u0026": "&"}]`)
 	hetero := arraysOver(univ.Js(`null`, `1`, `"a"`, `[1]`, `{"a":1}`, `true`), 3)
 	// objects of equal size with different key sets, null under the extra key; nested
 	objElems := univ.Js(`{"a":null}`, `{"b":null}`, `{"a":null,"b":1}`, `{"b":1,"c":2}`, `{"a":1,"b":null}`, `{"a":{"a":null}}`, `{"a":{"b":null}}`, `[{"a":null}]`, `[{"b":null}]`, `{}`, `null`)
 	objHay := arraysOver(objElems, 2)
 	var objArrays []interface{}
-	for _, keys := range [][]interface{}{univ.Js(`1`, `2`, `3`), univ.Js(`"a"`, `"b"`, `"ab"`), univ.Js(`"1"`, `"2"`, `"10"`)} {
+	for _, keys := range [][]interface{}{univ.Js(`1`, `2`, `3`), univ.Js(`"a"`, `"b"`, `"ab"`), univ.Js(`"1"`, `"2"`, `"10"`), univ.Js(`"éb"`, `"éa"`, `"éc"`)} {
 		for n := 0; n <= maxLen; n++ {
 			if n == 0 {
 				objArrays = append(objArrays, []interface{}{})
